@@ -156,6 +156,10 @@ def gen_cfg(rnd, family=None, ne=None, width=None, only_edges=None, cutoffs=True
         cfg['min_prob_norm'] = None
     if family == 'distance' and rnd.random() < 0.3:
         cfg['dist_noise'] = rnd.choice([0.5, 1, 2])
+    # calling convention (one configuration in three, a function of the configuration itself): obs_noise is the first parameter
+    # after the map and may be given positionally, Matcher(map, 0.5, max_dist=...), as well as by keyword
+    import zlib
+    cfg['_positional'] = zlib.crc32(repr(sorted(cfg.items())).encode()) % 3 == 0
     return cfg
 
 
@@ -193,9 +197,12 @@ def make_matcher(mp, cfg, warmup=None):
     from leuvenmapmatching.matcher.simple import SimpleMatcher
     from leuvenmapmatching.matcher.distance import DistanceMatcher
     kw = {k: v for k, v in cfg.items() if k != 'family' and v is not None or k in ('max_lattice_width',)}
-    kw = {k: v for k, v in kw.items() if not (v is None and k != 'max_lattice_width')}
+    kw = {k: v for k, v in kw.items() if not (v is None and k != 'max_lattice_width') and not k.startswith('_')}
     cls = SimpleMatcher if cfg['family'] == 'simple' else DistanceMatcher
-    mt = cls(mp, **kw)
+    if cfg.get('_positional') and 'obs_noise' in kw:
+        mt = cls(mp, kw.pop('obs_noise'), **kw)
+    else:
+        mt = cls(mp, **kw)
     if warmup:
         try:
             mt.match(list(warmup))
